@@ -13,6 +13,7 @@ from rig.place_and_route import Machine
 from rig.place_and_route.route.utils import longest_dimension_first
 from rig.place_and_route.route import utils as route_utils
 
+NX2_KEY = "LinkFromVec from_vector on an N x 2 torus (N > 2): the diagonal hop across the two-high seam"
 MAXW = 12
 MESHN = 14
 
@@ -187,19 +188,29 @@ def run(chk):
                             for p in sorted(paths):
                                 evs.append(["ldf", list(v), list(s), w, h, [list(q) for q in p]])
                         chk.note_case(("tlen", w, h, S, D), nontrivial=(s != d))
-            # from_vector on raw neighbour differences (documented for systems larger than 2x2)
-            if w >= 3 and h >= 3:
+            # from_vector on raw neighbour differences, on every torus incl. the thin ones ("all torus sizes including
+            # width or height 1 and 2"; on 2 x N / N x 2 any link that leads to that neighbour will do - the clause
+            # compares where the links lead, not which link it is).  A link that leads back to the chip itself
+            # (width or height 1) gives the zero vector, which names no direction: left out.
+            if w * h > 1:
                 for (x, y) in srcs:
                     for l in Links:
                         dx, dy = l.to_vector()
                         nx, ny = (x + dx) % w, (y + dy) % h
+                        if (nx, ny) == (x, y):
+                            continue
+                        # (one event per trace on the tori of the known finding, so that a rejection there does
+                        # not end the judging of anything else)
+                        fv = [] if (h == 2 and w >= 3) else evs
                         try:
                             r = Links.from_vector((nx - x, ny - y))
                         except Exception as ex:          # judged by the specification
-                            evs.append(["raise", "from_vector", [nx - x, ny - y], type(ex).__name__])
-                            continue
-                        evs.append(["fromvec", x, y, int(l), int(r)])
-                        chk.note_case(("fromvec", w, h, x, y, int(l)))
+                            fv.append(["raise", "from_vector", [nx - x, ny - y], type(ex).__name__])
+                        else:
+                            fv.append(["fromvec", x, y, int(l), int(r)])
+                            chk.note_case(("fromvec", w, h, x, y, int(l)))
+                        if fv is not evs:
+                            flush(w, h, fv)
             # working links between a chip and each of its neighbours (and a non-neighbour), with some links dead
             if w * h > 1:
                 dead = set()
@@ -222,6 +233,22 @@ def run(chk):
 
     # ---- mesh functions, minimise_xyz, unwrapped walks, link table, hexagons
     evs = []
+    # far out in the mesh (coordinates are unbounded integers): numbers travel as <<hi, lo>> = hi * 2^30 + lo
+    big = lambda n: [n >> 30, n & ((1 << 30) - 1)]
+    for _ in range(chk.pick(300, 3000)):
+        base = rng.choice((2 ** 31, 2 ** 53, 2 ** 53 + 1, 2 ** 55 + 3, 2 ** 56 - 1))
+        S = tuple(rng.choice((0, 1, -1, base, -base, base // 2 + 1)) + rng.randint(-9, 9) for _ in range(3))
+        D = tuple(rng.choice((0, 1, -1, base, -base, base // 2 + 1)) + rng.randint(-9, 9) for _ in range(3))
+        try:
+            n = geometry.shortest_mesh_path_length(S, D)
+            n = int(n) if n == int(n) else -1
+            if not -2 ** 60 < n < 2 ** 60:     # (no answer of this size is right for coordinates below 2^56 + 10)
+                n = -1
+        except Exception as ex:          # judged by the specification
+            evs.append(["raise", "shortest_mesh_path_length", [], type(ex).__name__])
+            continue
+        evs.append(["mlenbig", [big(c) for c in S], [big(c) for c in D], big(n)])
+        chk.note_case(("meshbig", S, D))
     R = chk.pick(6, 10)
     for dx in range(-R, R + 1):
         for dy in range(-R, R + 1):
@@ -280,6 +307,9 @@ def run(chk):
 
     def key_of(tr, l, clauses):
         e = tr["ev"][l - 1]
+        if (e[0] == "fromvec" and clauses == ["LinkFromVec"] and tr["h"] == 2 and tr["w"] >= 3 and
+                e[3] in (int(Links.north_east), int(Links.south_west)) and e[4] in (int(Links.north_east), int(Links.south_west))):
+            return NX2_KEY
         return "%s %s w=%s h=%s %s" % (e[0], ",".join(clauses), tr["w"], tr["h"], e[1:4])
 
     chk.validate("GeometryTrace", "GeometryTrace.cfg", traces, key_of=key_of, batch=chk.pick(2500, 500), heap=chk.pick("6g", "10g"))
